@@ -6,6 +6,8 @@ func bfsRec(tier string) *BFSDef {
 	al := []string{
 		"mkdir w/r/sub/n", "mkdir w/r/sub/n/m", "mkdir w/r/dir1/k", "mkdir w/r/sub",
 		"mv w/r/sub w/r/moved", "mv w/r/moved w/r/sub", "mv w/r/dir1 w/r/dirA", "mv w/r/sub/d w/r/sub2/dd", "mv w/r/sub2 w/r/sub/in", "mv w/r/dir1 w/r/empty", "touch w/r/empty/t",
+		// the same entry before and after its directory was renamed
+		"write w/r/sub/f", "write w/r/moved/f",
 		// directory names that begin with dots are ordinary names
 		"touch w/r/sub/..x/t", "touch w/r/moved/..x/t", "touch w/r/...y/t",
 		"touch w/r/t", "touch w/r/dir1/t", "touch w/r/dir10/t", "touch w/r/sub/t", "touch w/r/sub2/t", "touch w/r/sub/d/t", "touch w/r/sub2/d/t",
@@ -63,6 +65,12 @@ func recJobs(tier string) []Job {
 		last := b[strings.LastIndex(b, " ")+1:]
 		jobs = append(jobs, Job{Family: "seq-batch", Params: map[string]any{"family": "rec", "base": map[string]any{"init": []string{"RA w/r", "RA w/r2"}},
 			"histories": [][]string{{b, "touch " + last + "/t", "touch " + last + "/d/t", "mkdir " + last + "/new", "touch " + last + "/new/t", "touch w/r/sub2/t", "RR w/r", "touch " + last + "/d/u"}}}})
+	}
+	// the two halves of an inner directory's rename end up in different reads (the first half is the last record that
+	// fits into the 64 KiB buffer, one before, one after)
+	for _, n := range []string{"2046", "2047", "2048"} {
+		jobs = append(jobs, Job{Family: "seq-batch", Params: map[string]any{"family": "rec", "base": map[string]any{"init": []string{"RA w/r", "RA w/r2"}, "maxsteps": 2000000},
+			"histories": [][]string{{"dirburst w/r/sub2 " + n + " ;; mv w/r/sub w/r/moved", "touch w/r/moved/t", "touch w/r/moved/d/t", "write w/r/moved/f"}}}})
 	}
 	// "covered from the moment its own Create has been delivered": the new directory's Create shares a read
 	// buffer with later events and is the one the reader is parked on (no consumer yet); something is created
